@@ -46,14 +46,16 @@ type fault struct {
 	DL   int   // other-tile: level delta
 	DN   int64 // other-tile: number delta
 	P    int64 // foreign: length of the shared prefix
+	Call int   // which ReadHashes call on the same reader the fault belongs to (0 = first)
 }
 
 type readCase struct {
-	Seed   int64
-	N      int64
-	H      int
-	Coords []coord
-	Faults []fault
+	Seed    int64
+	N       int64
+	H       int
+	Coords  []coord
+	Coords2 []coord // a second ReadHashes call on the SAME reader (nil = none)
+	Faults  []fault
 }
 
 var faultKinds = []string{"bit", "bit", "bit", "swap", "dup", "other-tile", "other-tile", "foreign", "foreign", "trunc-byte", "trunc-hash", "ext-byte", "ext-hash", "empty", "zero", "fewer-slices", "more-slices", "error"}
@@ -125,9 +127,23 @@ func genRead(t *rapid.T) readCase {
 	for i := 0; i < nc; i++ {
 		c.Coords = append(c.Coords, genCoordIn(t, c.N))
 	}
+	second := rapid.IntRange(0, 3).Draw(t, "second") == 0
+	if second {
+		n2 := rapid.IntRange(1, 3).Draw(t, "ncoords2")
+		for i := 0; i < n2; i++ {
+			if len(c.Coords) > 0 && rapid.Bool().Draw(t, "samecoord") {
+				c.Coords2 = append(c.Coords2, c.Coords[rapid.IntRange(0, len(c.Coords)-1).Draw(t, "ci")])
+			} else {
+				c.Coords2 = append(c.Coords2, genCoordIn(t, c.N))
+			}
+		}
+	}
 	nf := []int{0, 1, 1, 1, 1, 2, 3}[rapid.IntRange(0, 6).Draw(t, "nfaults")]
 	for i := 0; i < nf; i++ {
 		f := genFault(t)
+		if second && rapid.Bool().Draw(t, "incall2") {
+			f.Call = 1
+		}
 		if f.Kind == "foreign" && rapid.Bool().Draw(t, "pnear") {
 			f.P = rapid.Int64Range(0, c.N).Draw(t, "pn")
 		}
@@ -187,6 +203,9 @@ func (r *faultyReader) ReadTiles(tiles []tlog.Tile) ([][]byte, error) {
 	for _, f := range r.faults {
 		if len(tiles) == 0 {
 			break
+		}
+		if f.Call != r.calls-1 {
+			continue
 		}
 		k := f.Ord % len(tiles)
 		t := tiles[k]
@@ -270,13 +289,16 @@ func okRead(c readCase) bool {
 	if c.N < 1 || c.N > 100000 || c.H < 1 || c.H > 12 || len(c.Coords) > 64 || len(c.Faults) > 8 {
 		return false
 	}
-	for _, co := range c.Coords {
+	for _, co := range append(append([]coord{}, c.Coords...), c.Coords2...) {
 		if co.Level < 0 || co.Level > 40 || co.Offset < 0 || (co.Offset+1)<<uint(co.Level) > c.N {
 			return false
 		}
 	}
+	if len(c.Coords2) > 64 {
+		return false
+	}
 	for _, f := range c.Faults {
-		if f.I < 0 || f.J < 0 || f.Ord < 0 || f.Bit < 0 || f.Bit > 7 || f.P < 0 {
+		if f.I < 0 || f.J < 0 || f.Ord < 0 || f.Bit < 0 || f.Bit > 7 || f.P < 0 || f.Call < 0 || f.Call > 1 {
 			return false
 		}
 	}
@@ -314,71 +336,83 @@ func checkRead(c readCase) pbt.Result {
 	key := tlogutil.Key{A: c.Seed, B: c.Seed, P: 0}
 	tree := tlogutil.ForkedTree(key, c.N)
 	rd := &faultyReader{key: key, n: c.N, h: c.H, faults: c.Faults}
-	var indexes []int64
-	var want []merkleref.Hash
-	for _, co := range c.Coords {
-		indexes = append(indexes, position(co.Level, co.Offset))
-		want = append(want, tree.At(merkleref.Coord{Level: co.Level, Offset: co.Offset}))
-	}
 	thr := tlog.TileHashReader(tlog.Tree{N: c.N, Hash: tlog.Hash(tree.MTH(0, c.N))}, rd)
-	got, err := thr.ReadHashes(indexes)
-
-	// classify what was delivered
 	thTiles := treeHashTiles(c.N, c.H)
-	anyDiff := false
-	for _, s := range rd.served {
-		if !bytes.Equal(s.delivered, s.truth) {
-			anyDiff = true
-			k := tlog.Tile{H: s.tile.H, L: s.tile.L, N: s.tile.N}
-			switch cnt := thTiles[k]; {
-			case cnt == 0:
-				r.NonTrivial = true
-				r.Classes = append(r.Classes, "corrupt child tile (reached through a parent)")
-			case cnt >= 2:
-				r.NonTrivial = true
-				r.Classes = append(r.Classes, "corrupt tree-hash tile shared by >=2 subtree hashes")
-			default:
-				r.Classes = append(r.Classes, "corrupt tree-hash tile")
-			}
-		}
-	}
-	honest := !anyDiff && !rd.reqErr && rd.slicesD == 0
-	if honest && len(rd.served) >= 3 {
-		r.NonTrivial = true
-	}
 	if len(thTiles) < bits.OnesCount64(uint64(c.N)) {
 		r.Classes = append(r.Classes, "tree-hash tiles coincide")
 	}
-	if honest {
-		r.Classes = append(r.Classes, "honest")
+	calls := [][]coord{c.Coords}
+	if len(c.Coords2) > 0 {
+		calls = append(calls, c.Coords2)
+		r.Classes = append(r.Classes, "two reads on one reader")
 	}
+	for ci, coords := range calls {
+		var indexes []int64
+		var want []merkleref.Hash
+		for _, co := range coords {
+			indexes = append(indexes, position(co.Level, co.Offset))
+			want = append(want, tree.At(merkleref.Coord{Level: co.Level, Offset: co.Offset}))
+		}
+		servedBefore, savedBefore := len(rd.served), len(rd.saved)
+		rd.reqErr, rd.slicesD = false, 0
+		got, err := thr.ReadHashes(indexes)
 
-	// every tile passed on for saving is the true tile
-	for _, s := range rd.saved {
-		if s.truth == nil || !bytes.Equal(s.delivered, s.truth) {
-			r.Fail = pbt.Failf("saved-unauthenticated-tile", "N=%d H=%d: tile %v was passed to SaveTiles with content that is not the true tile (read err=%v)", c.N, c.H, s.tile.Path(), err)
-			return r
+		// classify what was delivered in this call
+		anyDiff := false
+		for _, s := range rd.served[servedBefore:] {
+			if !bytes.Equal(s.delivered, s.truth) {
+				anyDiff = true
+				k := tlog.Tile{H: s.tile.H, L: s.tile.L, N: s.tile.N}
+				switch cnt := thTiles[k]; {
+				case cnt == 0:
+					r.NonTrivial = true
+					r.Classes = append(r.Classes, "corrupt child tile (reached through a parent)")
+				case cnt >= 2:
+					r.NonTrivial = true
+					r.Classes = append(r.Classes, "corrupt tree-hash tile shared by >=2 subtree hashes")
+				default:
+					r.Classes = append(r.Classes, "corrupt tree-hash tile")
+				}
+				if ci > 0 {
+					r.Classes = append(r.Classes, "corruption on a later read of the same reader")
+				}
+			}
 		}
-	}
-	if err != nil {
+		honest := !anyDiff && !rd.reqErr && rd.slicesD == 0
+		if honest && len(rd.served)-servedBefore >= 3 {
+			r.NonTrivial = true
+		}
 		if honest {
-			r.Fail = pbt.Failf("honest-read-failed", "N=%d H=%d indexes=%v: honest tiles but ReadHashes failed: %v", c.N, c.H, indexes, err)
+			r.Classes = append(r.Classes, "honest")
 		}
-		r.Classes = append(r.Classes, "read failed")
-		return r
-	}
-	if len(got) != len(indexes) {
-		r.Fail = pbt.Failf("result-length", "ReadHashes returned %d hashes for %d indexes", len(got), len(indexes))
-		return r
-	}
-	for i := range got {
-		if merkleref.Hash(got[i]) != want[i] {
-			r.Fail = pbt.Failf("wrong-hash-returned", "N=%d H=%d: ReadHashes returned a hash for position %d (level %d offset %d) that is not the true stored hash; faults=%+v", c.N, c.H, indexes[i], c.Coords[i].Level, c.Coords[i].Offset, c.Faults)
+		// every tile passed on for saving is the true tile
+		for _, s := range rd.saved[savedBefore:] {
+			if s.truth == nil || !bytes.Equal(s.delivered, s.truth) {
+				r.Fail = pbt.Failf("saved-unauthenticated-tile", "N=%d H=%d read %d: tile %v was passed to SaveTiles with content that is not the true tile (read err=%v)", c.N, c.H, ci, s.tile.Path(), err)
+				return r
+			}
+		}
+		if err != nil {
+			if honest {
+				r.Fail = pbt.Failf("honest-read-failed", "N=%d H=%d read %d indexes=%v: honest tiles but ReadHashes failed: %v", c.N, c.H, ci, indexes, err)
+				return r
+			}
+			r.Classes = append(r.Classes, "read failed")
+			continue
+		}
+		if len(got) != len(indexes) {
+			r.Fail = pbt.Failf("result-length", "ReadHashes returned %d hashes for %d indexes", len(got), len(indexes))
 			return r
 		}
-	}
-	if anyDiff {
-		r.Classes = append(r.Classes, "corruption did not affect the result (accepted, result true)")
+		for i := range got {
+			if merkleref.Hash(got[i]) != want[i] {
+				r.Fail = pbt.Failf("wrong-hash-returned", "N=%d H=%d read %d: ReadHashes returned a hash for position %d (level %d offset %d) that is not the true stored hash; faults=%+v", c.N, c.H, ci, indexes[i], coords[i].Level, coords[i].Offset, c.Faults)
+				return r
+			}
+		}
+		if anyDiff {
+			r.Classes = append(r.Classes, "corruption did not affect the result (accepted, result true)")
+		}
 	}
 	return r
 }
